@@ -426,6 +426,14 @@ def stress_jobs(opts=0, long_n=70000):
             out.append({"font": charis, "cps": [0x61] + [0x0301] * n + [0x62], "dir": d, "opts": opts, "ppm": 0, "id": "markstack:%d:d%d" % (n, d)})
     for font, unit in ((os.path.join(F, "Padauk.ttf"), [0x1000, 0x1031, 0x102C, 0x20]), (charis, [0x61, 0x0301, 0x62, 0x20, 0x63])):
         out.append({"font": font, "cps": (unit * (long_n // len(unit) + 1))[:long_n], "dir": 0, "opts": opts, "ppm": 0, "id": "long:%s" % os.path.basename(font)})
+    # texts none of whose characters the font maps (nothing but glyph 0), and digits spelled out by a feature
+    # (MagyarLinLibertineG, feature 210: three characters become eighteen glyphs)
+    for font in ("Padauk.ttf", "charis_r_gr.ttf", "Scheherazadegr.ttf", "PigLatinBenchmark_v3.ttf"):
+        for k, t in enumerate(("\u6f22\u5b57", "\ud55c", "\u13a0\u13a1\u13a2 \u13a3")):
+            for d in (0, 1):
+                out.append({"font": os.path.join(F, font), "cps": [ord(c) for c in t], "dir": d, "opts": opts, "ppm": 0, "id": "unmapped:%s:%d:d%d" % (font, k, d)})
+    for k, t in enumerate(("777", "1234567", "9", "1000000 99")):
+        out.append({"font": os.path.join(F, "MagyarLinLibertineG.ttf"), "cps": [ord(c) for c in t], "dir": 0, "opts": opts, "ppm": 0, "feats": [[210, 1]], "id": "spelled:%d" % k})
     for font in ("Padauk.ttf", "charis_r_gr.ttf", "Scheherazadegr.ttf"):
         for k, t in enumerate(("HelloMum", "a b c d e f g h", "The quick brown fox jumps over the lazy dog", "\u1000\u1031\u102c \u1000\u1031 \u1019", "\u0627\u0644\u0633\u0644\u0627\u0645 \u0639\u0644\u064a\u0643\u0645")):
             for ppm in (0, 12):
